@@ -273,7 +273,7 @@ func refReadBody(ls [][]byte, j int, typ string, hdr map[string]string) refRes {
 			if !d.Ok || d.AfterPad {
 				term = "corrupt"
 			} else if len(d.Bytes) != 3 {
-				j++
+				term = "corrupt" // a padded checksum is not a CRC-24 (repaired code, /repo 5d307c4; before, the line was skipped)
 			} else if j+1 < len(ls) && bytes.HasPrefix(ls[j+1], []byte("-----END ")) {
 				term = "crc"
 				crc = uint32(d.Bytes[0])*65536 + uint32(d.Bytes[1])*256 + uint32(d.Bytes[2])
@@ -337,6 +337,10 @@ find:
 			}
 			i := refIdxColonSp(h)
 			if i < 0 {
+				if h[len(h)-1] == ':' { // "Key: " written for an empty value, trimmed (repaired code, /repo 91fc6da)
+					hdr[string(h[:len(h)-1])] = ""
+					continue
+				}
 				continue find
 			}
 			hdr[string(h[:i])] = string(h[i+2:])
@@ -352,7 +356,7 @@ func refHeaderClass(k, v string) string {
 	case len(k) > 0 && refIsSpace(k[0]):
 		return "key-leading-space"
 	case len(v) == 0:
-		return "empty-value"
+		return "safe" // was the class "empty-value" before /repo 91fc6da
 	case refIsSpace(v[len(v)-1]):
 		return "value-trailing-space"
 	}
